@@ -4,6 +4,6 @@ set -e
 cd "$(dirname "$0")"
 export CARGO_NET_OFFLINE=true
 python3 tools/extract.py --repo /repo || true
-(cd lean && lake build Kodama kodama-driver kodama-capi-driver)
+(cd lean && lake build Kodama kodama-driver kodama-capi-driver kodama-laws)
 (cd harness && CARGO_TARGET_DIR=../build/harness RUSTFLAGS="--cfg kodama_verif" cargo build --offline)
 (cd harness && CARGO_TARGET_DIR=../build/harness RUSTFLAGS="--cfg kodama_verif" cargo build --offline --release)
